@@ -55,6 +55,9 @@ type Contract struct {
 	Uses     []string // lemma names made available as axioms
 	Opts     map[string]string
 	Used     bool
+	// AtCall: obligations at every call of the named callee inside this function, stated over
+	// the callee's own parameter names
+	AtCall map[string][]*Clause
 }
 
 func (c *Contract) Key() string {
@@ -153,7 +156,7 @@ func extractLines(path string) ([]rawLine, string, error) {
 }
 
 var declKeywords = []string{"func", "spec", "lemma", "axiom", "census", "guard", "ghost", "package", "trusted"}
-var clauseKeywords = []string{"requires", "ensures", "modifies", "invariant", "decreases", "loop", "safe", "trusted", "inline", "for", "nooverflow", "mode", "uses", "induction", "pattern", "assert", "opt"}
+var clauseKeywords = []string{"atcall", "requires", "ensures", "modifies", "invariant", "decreases", "loop", "safe", "trusted", "inline", "for", "nooverflow", "mode", "uses", "induction", "pattern", "assert", "opt"}
 
 func firstWord(s string) (string, string) {
 	s = strings.TrimSpace(s)
@@ -488,6 +491,23 @@ func parseFuncContract(pkgPath, path string, head rawLine, clauses []rawLine) (*
 				return nil, fmt.Errorf("%s:%d: %v", path, l.line, err)
 			}
 			curLoop.Decreases = e
+		case "atcall":
+			// atcall Callee requires expr
+			r := strings.TrimSpace(rest)
+			i := strings.Index(r, " requires ")
+			if i < 0 {
+				return nil, fmt.Errorf("%s:%d: atcall needs 'requires'", path, l.line)
+			}
+			callee := strings.TrimSpace(r[:i])
+			cl, err := parseClauseExpr(path, l, "atcall", r[i+10:], 0)
+			if err != nil {
+				return nil, err
+			}
+			if c.AtCall == nil {
+				c.AtCall = map[string][]*Clause{}
+			}
+			cl.Idx = len(c.AtCall[callee]) + 1
+			c.AtCall[callee] = append(c.AtCall[callee], cl)
 		case "safe":
 			c.Safe = true
 		case "nooverflow":
